@@ -293,12 +293,57 @@ def rule_varpos(prog, rep):
                     "a variable in a nested position (input object field, list item) is accepted by the Variable arm of value_of_correct_type after comparing %s: list depth and nullability of the position are not checked (IsVariableUsageAllowed is applied to arguments only)" % ("the innermost named types only" if weak else "nothing"), f.loc())
 
 
+def rule_loneanon(prog, rep):
+    """C17.LONEANON: Lone Anonymous Operation (spec 5.2.2.1).  An anonymous operation is stored in
+    the document only when it is the only operation so far - no earlier anonymous operation and
+    no named operation - and a named operation that meets a stored anonymous one reports it;
+    every other combination is reported as AmbiguousAnonymousOperation by the builder."""
+    from ..flow import facts_at
+    rep.floor("C17.LONEANON", 2)
+    f0 = prog.fn(r"^apollo_compiler::executable::from_ast::ExecutableDocumentBuilder::<'schema, 'errors>::add_ast_document_not_adding_sources$")
+    f = prog.inline(f0, keep=r"::(from_ast|push|entry|is_empty)$")
+    writes = []
+    for b in sorted(f.live_blocks()):
+        for st in f.stmts(b):
+            if st[0] == "=" and st[1][1] and isinstance(st[1][1][-1], list) and st[1][1][-1][0] == "f" and st[1][1][-1][2] == "anonymous":
+                writes.append(b)
+    if not writes:
+        raise Undecided("add_ast_document_not_adding_sources: the anonymous operation is never stored")
+    ok = True
+    for b in writes:
+        fs = facts_at(f, b)
+        none_before = any(x[0] == "variant" and x[1].endswith(".operations.anonymous") and x[2] == "None" and x[3] is True for x in fs)
+        no_named = any(x[0] == "callbool" and x[1].endswith("::is_empty") and x[3] is True and x[2] and str(x[2][0]).endswith(".operations.named") for x in fs) or \
+            any(x[0] == "callbool" and re.search(r"::len$", x[1]) and x[2] and str(x[2][0]).endswith(".operations.named") for x in fs)
+        ok = ok and none_before and no_named
+    rep.obligation(ok)
+    if ok:
+        rep.instance("C17.LONEANON", "an anonymous operation is stored only if no anonymous and no named operation came before it")
+    else:
+        rep.finding("C17.LONEANON", f0.name, "stored-next-to-others",
+                    "an anonymous operation is stored although %s: `query A { a } { a }` builds and validates, which Lone Anonymous Operation forbids" % ("named operations may already exist" if none_before else "another anonymous operation may already exist"), f0.loc())
+    # the named side: a named operation that meets a stored anonymous operation reports it
+    sites = [c for c in f.live_calls() if c.name.endswith("DiagnosticList::push") and "AmbiguousAnonymousOperation" in f.sym(c.args[2])]
+    named_side = False
+    for c in sites:
+        fs = facts_at(f, c.block)
+        if any(x[0] == "variant" and x[1].endswith(".name") and x[2] == "Some" and x[3] is True for x in fs) and \
+           any(x[0] == "variant" and x[1].endswith(".operations.anonymous") and x[2] == "Some" and x[3] is True for x in fs):
+            named_side = True
+    rep.obligation(named_side)
+    if named_side:
+        rep.instance("C17.LONEANON", "a named operation added next to a stored anonymous operation reports AmbiguousAnonymousOperation")
+    else:
+        rep.finding("C17.LONEANON", f0.name, "named-after-anonymous", "a named operation added after an anonymous one does not report AmbiguousAnonymousOperation", f0.loc())
+
+
 def run(prog, rep):
     rule_registry(prog, rep)
     rule_scope(prog, rep)
     rule_shape(prog, rep)
     rule_nested(prog, rep)
     rule_varpos(prog, rep)
+    rule_loneanon(prog, rep)
     # verdict conditions decided under sibling properties: IsVariableUsageAllowed / AreTypesCompatible
     # (C29), the type inline fragments are validated against (C18), completeness of the
     # fragment-cycle search (C21)
